@@ -61,9 +61,9 @@ Ltac finish_rest IH L :=
                 | discriminate ]).
 
 (** evaluateTokens terminates within the fuel: measure < fuel *)
-Lemma eval_loop_total T m : forall f toks, (tokens_measure toks < f)%nat -> eval_loop T m f toks <> None.
+Lemma eval_loop_total T m : forall f toks ctx, (tokens_measure toks < f)%nat -> eval_loop T m f toks ctx <> None.
 Proof.
-  induction f as [|f IH]; intros toks L; [lia|].
+  induction f as [|f IH]; intros toks ctx L; [lia|].
   destruct toks as [|t rest]; [discriminate|]. rewrite measure_cons in L.
   cbn [eval_loop]. cbv zeta.
   destruct (is_group (to_upper t)) eqn:G.
@@ -85,9 +85,14 @@ Proof.
             | |- context [if (?a <? ?b)%nat then _ else _] => destruct (a <? b)%nat
             end);
     finish_rest IH L.
+  all: try (apply IH;
+    repeat match goal with
+           | |- context [tokens_measure (firstn ?n ?l)] => pose proof (measure_firstn n l); generalize dependent (tokens_measure (firstn n l)); intros
+           | |- context [tokens_measure (skipn ?n ?l)] => pose proof (measure_skipn n l); generalize dependent (tokens_measure (skipn n l)); intros
+           end; lia).
   apply IH.
-  pose proof (measure_firstn (search_key_length (skipn (search_key_length rest) rest)) (skipn (search_key_length rest) rest)).
-  pose proof (measure_skipn (search_key_length rest) rest). lia.
+  match goal with |- context [tokens_measure (firstn ?n (skipn ?k rest))] =>
+    pose proof (measure_firstn n (skipn k rest)); pose proof (measure_skipn k rest) end. lia.
 Qed.
 
 (** evaluateTokens never fails *)
